@@ -105,11 +105,17 @@ def decode(l):
     return {"kind": "run", "mode": mode, "path": path, "flags": flags, "throttle": thr, "init": init}
 
 
-def main_oracle(rng, root):
+FIXED_MAIN = [("good", ["assemble", "P"]), ("data", ["assemble", "--big-stack", "P"]), ("good", ["assemble", "--big-stack", "P"]),
+              ("data", ["assemble", "P"]), ("data", ["--big-stack", "assemble", "P"]), ("good", ["P"]), ("good", ["--quiet", "P"]),
+              ("good", ["preprocess", "P"]), ("data", ["preprocess", "--obfuscate", "P"]), ("hex", ["disassemble", "P"]),
+              ("unwritable", ["assemble", "P"]), ("bad", ["assemble", "P"]), ("missing", ["preprocess", "P"])]
+
+
+def main_oracle(rng, root, fixed=None):
     """hera.main.main on an argument vector with a real file: exit status, streams, no traceback."""
     files = {"good": "SET(R1, 5)\nprint_reg(R1)\nHALT()\n", "bad": "SET(R1, 5\nFOO(2)\n", "warn": "SET(R1, 017)\n",
              "data": "DLABEL(x)\nINTEGER(5)\nLP_STRING(\"hi\")\nSET(R1, x)\n", "empty": "", "hex": "e1ff\nzz\n1234\n"}
-    kind = rng.choice(sorted(files) + ["missing", "dir", "nonascii", "unwritable"])
+    kind = fixed[0] if fixed else rng.choice(sorted(files) + ["missing", "dir", "nonascii", "unwritable"])
     p = os.path.join(root, kind + ".hera")
     if kind in files:
         open(p, "w").write(files[kind])
@@ -121,9 +127,12 @@ def main_oracle(rng, root):
         os.makedirs(p, exist_ok=True)
     elif kind == "nonascii":
         open(p, "wb").write(b"SET(R1, 1)\n// \xff\xfe\n")
-    argv = [a if a != "p.hera" else p for a in gen_argv(rng)]
-    if rng.random() < 0.7 and p not in argv:
-        argv.append(p)
+    if fixed:
+        argv = [p if a == "P" else a for a in fixed[1]]
+    else:
+        argv = [a if a != "p.hera" else p for a in gen_argv(rng)]
+        if rng.random() < 0.7 and p not in argv:
+            argv.append(p)
     from hera.main import main, parse_args
     import contextlib
     import io
@@ -287,8 +296,8 @@ def correspondence(ctx, model_available=True):
     st = {"main_runs": 0, "by_input": {}}
     root = tempfile.mkdtemp(prefix="hera_cli_")
     try:
-        for _ in range(250 if quick else 4000):
-            p, kind = main_oracle(rng, root)
+        for k in range(250 if quick else 4000):
+            p, kind = main_oracle(rng, root, FIXED_MAIN[k] if k < len(FIXED_MAIN) else None)
             st["main_runs"] += 1
             st["by_input"][kind] = st["by_input"].get(kind, 0) + 1
             if p:
